@@ -65,6 +65,18 @@ impl Koto {
         self.runtime.exports_mut()
     }
 
+    /// Verification hook: see `KotoVm::verif_stack_sizes`
+    #[cfg(koto_verif)]
+    pub fn verif_stack_sizes(&self) -> [usize; 5] {
+        self.runtime.verif_stack_sizes()
+    }
+
+    /// Verification hook: access to the underlying VM
+    #[cfg(koto_verif)]
+    pub fn verif_vm(&mut self) -> &mut KotoVm {
+        &mut self.runtime
+    }
+
     /// Compiles and runs a Koto script, and returns the script's result
     ///
     /// This is a convenience function, equivalent to calling [compile](Self::compile) followed by
